@@ -166,6 +166,10 @@ def constructors(tier):
     add("Frame[header]", F, lambda c: urwid.Frame(S("b"), header=c))
     add("Frame[footer;f]", F, lambda c: urwid.Frame(S("b"), footer=c, focus_part="footer"))
     add("Frame[body]", B, lambda c: urwid.Frame(c, header=T("h"), footer=T("f\nf")))
+    # header and footer together, each focus part: the part in focus is kept, the other one is trimmed to what is left
+    add("Frame[header+footer2;f]", F, lambda c: urwid.Frame(S("b"), header=c, footer=T("f\nf"), focus_part="footer"))
+    add("Frame[header3+footer;f]", F, lambda c: urwid.Frame(S("b"), header=T("h\nh\nh"), footer=c, focus_part="footer"))
+    add("Frame[header+footer2;h]", F, lambda c: urwid.Frame(S("b"), header=c, footer=T("f\nf"), focus_part="header"))
     add("Frame[body-only]", B, lambda c: urwid.Frame(c))
     add("Overlay[center3,middle2]", B, lambda c: urwid.Overlay(c, S("b"), "center", 3, "middle", 2))
     add("Overlay[left-rel50,top-pack]", F, lambda c: urwid.Overlay(c, S("b"), "left", ("relative", 50), "top", "pack"))
